@@ -78,7 +78,7 @@ class OracleCase:
                 'prop_seed': self.prop_seed, 'beta': self.beta, 'model': self.model_kind,
                 'blobs': self.blobs, 'holes': self.holes, 'start': self.start, 'steps': self.steps,
                 'seed': self.seed, 'pt_betas': getattr(self, 'pt_betas', None),
-                'pt_swap_interval': getattr(self, 'pt_swap_interval', 1)}
+                'pt_swap_interval': getattr(self, 'pt_swap_interval', 1), 'pt_dynamic': getattr(self, 'pt_dynamic', False)}
 
     @staticmethod
     def from_description(d):
@@ -91,6 +91,7 @@ class OracleCase:
         c.model_kind = d['model']
         c.pt_betas = d.get('pt_betas')
         c.pt_swap_interval = d.get('pt_swap_interval', 1)
+        c.pt_dynamic = d.get('pt_dynamic', False)
         return c
 
 
@@ -320,8 +321,15 @@ def run_pt_oracle_case(c, stats=None):
         findings.append(('C01-%s:pt:%s' % (kind, fams), text, dict(detail, case=c.describe())))
 
     with R.scripted(R.Script(tail=tail, budget=400000)):
+        ann = None
+        if getattr(c, 'pt_dynamic', False) and nt >= 3:
+            from epsie.chain.ptchain import DynamicalAnnealer
+            ann = DynamicalAnnealer(tau=50, nu=4, Tmax_prior=bool(c.seed % 2))
         pt = ParallelTemperedChain(pnames, model, props, betas=numpy.array(betas), swap_interval=c.pt_swap_interval,
-                                   bit_generator=7)
+                                   adaptive_annealer=ann, bit_generator=7)
+        # the temperature of level t is the t-th entry of the ladder the chain holds (an annealer fixes the
+        # hottest one at infinity at construction, and moves the intermediate ones after every sweep)
+        betas = [float(b) for b in pt.betas]
         srng = random.Random(c.seed ^ 0x51A87)
         kinds = {name: (kind, dom) for name, kind, dom in c.params}
         start = {}
@@ -355,6 +363,7 @@ def run_pt_oracle_case(c, stats=None):
 
             def step():
                 x = {p: l.current_position[p] for p in pnames}
+                per[t]['beta'] = float(pt.betas[t])       # the ladder entry when the step is made
                 per[t]['pre'] = (x, dict(l.current_stats), None if not l.hasblobs else dict(l.current_blob))
                 glob['u'] = None
                 r = orig_step()
@@ -372,11 +381,12 @@ def run_pt_oracle_case(c, stats=None):
                     continue
                 per[t]['stepped'] = False
                 x, sx, bx = per[t]['pre']
-                if _verify_step(l, pnames, ref, x, sx, bx, per[t]['u'], per[t]['snap'], float(betas[t]), state['it'],
+                bt = per[t].get('beta', float(betas[t]))
+                if _verify_step(l, pnames, ref, x, sx, bx, per[t]['u'], per[t]['snap'], bt, state['it'],
                                 bump, bad, level=t) == 'stop':
                     state['stop'] = True
-                if float(l.beta) != float(betas[t]):
-                    bad('level-beta', 'level %d samples at beta %r, the ladder says %r' % (t, float(l.beta), betas[t]),
+                if ann is None and float(l.beta) != bt:
+                    bad('level-beta', 'level %d samples at beta %r, the ladder says %r' % (t, float(l.beta), bt),
                         {'level': t})
 
         orig_swap = pt.swap_temperatures
@@ -421,6 +431,7 @@ def acceptance_oracle(seed, tier, full=False):
                                                      prng_.randint(1, 3)), reverse=True)
             c.pt_betas = [b for j, b in enumerate(c.pt_betas) if j == 0 or b != 1.0]
             c.pt_swap_interval = prng_.choice([1, 1, 2])
+            c.pt_dynamic = prng_.random() < 0.4
     stats, findings, fam_hist = {}, [], {}
     for c in cases:
         try:
